@@ -138,7 +138,7 @@ func (r *registry) handleBlobCompleteUpload(ctx context.Context, resp http.Respo
 	defer w.Close()
 
 	if _, err := io.Copy(w, req.Body); err != nil {
-		return fmt.Errorf("failed to copy data to %T: %v", w, err)
+		return fmt.Errorf("failed to copy data to %T: %w", w, err)
 	}
 	desc, err := w.Commit(ociregistry.Digest(rreq.Digest))
 	if err != nil {
